@@ -279,6 +279,31 @@ def showFound (f : Found) : List Char :=
     [digit36 i, (match m with
       | .var => 'v' | .block => 'b' | .comment => 'c' | .lineStmt => 's' | .lineComment => 'l'), digit36 n]
 
+def undigit36 (c : Char) : Nat :=
+  if '0' ≤ c ∧ c ≤ '9' then c.toNat - 48 else if 'a' ≤ c ∧ c ≤ 'z' then c.toNat - 87 else 0
+
+/-- `sep` triples (start, end, pattern index) as the harness prints the automaton's report -/
+def parseMatches : List Char → List AcMatch
+  | s :: e :: p :: r => ⟨undigit36 s, undigit36 p, undigit36 e - undigit36 s⟩ :: parseMatches r
+  | _ => []
+
+/-- the hypothesis of `acLoop_eq_findLL_of_spec` evaluated on what the real automaton reported:
+    number of haystacks on which the report meets `AcSpec` (decided by `acSpecB`), and what the
+    model of the loop makes of the REAL report -/
+def kacReal (d : Delims) (pre : List Char) (words : List (List Char)) (ms : String) (mx : String) : String :=
+  match validatedStartDelims d with
+  | none => "\tacspec=novalid"
+  | some pats =>
+    let reports := (ms.splitOn ",").map (fun w => parseMatches w.toList)
+    if reports.length ≠ words.length then "\tacspec=badlen" else
+    let pairs := words.zip reports
+    let good := (pairs.filter (fun (h, r) => acSpecB pats h r)).length
+    let loop := pairs.flatMap (fun (h, r) => showFound (acLoop d (maxPatternLen pats) pre.reverse h none r))
+    let firstBad := match pairs.find? (fun (h, r) => !acSpecB pats h r) with
+      | some (h, _) => hexOf h
+      | none => "-"
+    s!"\tacspec={good}/{words.length}\tacbad={firstBad}\tacloop={String.ofList loop}\tmaxok={if mx.toNat? = some (maxPatternLen pats) then 1 else 0}"
+
 def handleSeg (case : String) (fields : List String) (tlk fam segs : String) : String :=
   match parseCfg tlk, parseFam fam, parseItems (if segs = "." then [] else segs.splitOn ";") 0 with
   | some cfg, some d, some items =>
@@ -314,7 +339,10 @@ def handle (line : String) : String :=
     match parseFam fam, maxlen.toNat?, unhex prehex with
     | some d, some n, some pre =>
       let res := (kacWords n).flatMap (fun h => showFound (findStart d pre.reverse h))
-      s!"{case}\tres={String.ofList res}\tll={String.ofList ((kacWords n).flatMap (fun h => showFound (findLL d pre.reverse h)))}"
+      let real := match field fields "ms", field fields "max" with
+        | some ms, some mx => if ms = "-" ∨ ms = "panic" then s!"\tacspec={ms}" else kacReal d pre (kacWords n) ms mx
+        | _, _ => ""
+      s!"{case}\tres={String.ofList res}\tll={String.ofList ((kacWords n).flatMap (fun h => showFound (findLL d pre.reverse h)))}{real}"
     | _, _, _ => s!"{case}\tbad-case"
   | ["entry", tlk, fam, segs] => handleSeg case fields tlk fam segs
   | ["wrap", tlk, fam, _kind, segs] => handleSeg case fields tlk fam segs
